@@ -50,7 +50,7 @@ func domainOf(w *core.Write) string {
 	if !ok {
 		return ""
 	}
-	name := w.Owner.Obj().Name()
+	name := core.N(w.Owner.Obj())
 	switch rel {
 	case "":
 		switch {
@@ -98,9 +98,9 @@ func fnKey(fn *ssa.Function) string {
 		fn = fn.Parent()
 	}
 	if recv := fn.Signature.Recv(); recv != nil {
-		return core.TypeName(recv.Type()) + "." + fn.Name()
+		return core.TypeName(recv.Type()) + "." + core.N(fn)
 	}
-	return fn.Name()
+	return core.N(fn)
 }
 
 func c07Writes(c *core.Ctx, r *core.Reporter) {
@@ -142,7 +142,7 @@ func c07Writes(c *core.Ctx, r *core.Reporter) {
 			if !li.HoldsExclusive(e.Site) {
 				return false
 			}
-			own := li.Owner.Obj().Name()
+			own := core.N(li.Owner.Obj())
 			return (dom == "plan" && planDomain[own]) || (dom == "cache" && cacheDomain[own])
 		}
 		domReach[dom] = c.Reach(rc)
@@ -219,7 +219,7 @@ func c07Writes(c *core.Ctx, r *core.Reporter) {
 				continue
 			}
 			if li := locks[fn]; li.HoldsExclusive(w.In) && sameDomainLock(li, dom) {
-				note(key, w.In.Pos(), false, "write dominated by "+li.Owner.Obj().Name()+"."+li.Field.Name()+".Lock() with deferred Unlock")
+				note(key, w.In.Pos(), false, "write dominated by "+core.N(li.Owner.Obj())+"."+core.N(li.Field)+".Lock() with deferred Unlock")
 				continue
 			}
 			if !domReach[dom][fn] {
@@ -276,7 +276,7 @@ func onceGuarded(fn *ssa.Function) bool {
 				continue
 			}
 			cal := ci.Call.StaticCallee()
-			if cal == nil || cal.Pkg == nil || cal.Pkg.Pkg.Path() != "sync" || cal.Name() != "Do" || len(ci.Call.Args) != 2 || ci.Call.Args[1] != mc {
+			if cal == nil || cal.Pkg == nil || cal.Pkg.Pkg.Path() != "sync" || core.N(cal) != "Do" || len(ci.Call.Args) != 2 || ci.Call.Args[1] != mc {
 				ok = false
 				continue
 			}
@@ -292,7 +292,7 @@ func sameDomainLock(li *core.LockInfo, dom string) bool {
 	if li == nil || li.Owner == nil {
 		return false
 	}
-	own := li.Owner.Obj().Name()
+	own := core.N(li.Owner.Obj())
 	return (dom == "plan" && planDomain[own]) || (dom == "cache" && cacheDomain[own])
 }
 
@@ -412,7 +412,7 @@ func c07Lock(c *core.Ctx, r *core.Reporter) {
 		var lockCalls []ssa.Instruction
 		core.Instrs(fn, func(in ssa.Instruction) {
 			if ci, ok := in.(ssa.CallInstruction); ok {
-				if cal := ci.Common().StaticCallee(); cal != nil && cal.Pkg != nil && cal.Pkg.Pkg.Path() == "sync" && (cal.Name() == "Lock" || cal.Name() == "RLock") {
+				if cal := ci.Common().StaticCallee(); cal != nil && cal.Pkg != nil && cal.Pkg.Pkg.Path() == "sync" && (core.N(cal) == "Lock" || core.N(cal) == "RLock") {
 					lockCalls = append(lockCalls, in)
 				}
 			}
@@ -466,11 +466,11 @@ func c07Lock(c *core.Ctx, r *core.Reporter) {
 					}
 				}
 			}
-			r.Check(again == "", fnKey(fn)+"/not-re-entrant", li.Lock.Pos(), "no function reachable from the critical section takes "+li.Owner.Obj().Name()+"."+li.Field.Name()+" again",
-				"while "+li.Owner.Obj().Name()+"."+li.Field.Name()+" is held, "+fnKey(fn)+" calls into code that locks the same mutex again ("+again+"): sync mutexes are not re-entrant, so the goroutine deadlocks with the lock held and every later request on the same object hangs")
+			r.Check(again == "", fnKey(fn)+"/not-re-entrant", li.Lock.Pos(), "no function reachable from the critical section takes "+core.N(li.Owner.Obj())+"."+core.N(li.Field)+" again",
+				"while "+core.N(li.Owner.Obj())+"."+core.N(li.Field)+" is held, "+fnKey(fn)+" calls into code that locks the same mutex again ("+again+"): sync mutexes are not re-entrant, so the goroutine deadlocks with the lock held and every later request on the same object hangs")
 		}
 		// nothing user-supplied and no channel operation while a cache mutex is held
-		if li.Owner != nil && cacheDomain[li.Owner.Obj().Name()] {
+		if li.Owner != nil && cacheDomain[core.N(li.Owner.Obj())] {
 			bad := ""
 			seen := map[*ssa.Function]bool{}
 			var walk func(f *ssa.Function, depth int)
